@@ -278,6 +278,13 @@ func run(c *mc.Ctx, u mc.Unit) {
 		}
 		var err error
 		if p.Cancel {
+			if len(p.Prefix) > 0 && c.Bool("node-restarted-before-the-cancelled-attempt") {
+				// the attempt runs on cold in-memory state (nothing cached yet): what it reads first, it reads on the
+				// transaction that is about to be cancelled
+				a.Restart()
+				ctxt += ", restart before the attempt"
+				c.Witness("cancelled_attempts_on_a_freshly_started_node")
+			}
 			var fired, outsideTx bool
 			err, fired, outsideTx = a.ProcessCancelledAt(k, blk)
 			if !fired {
